@@ -262,8 +262,9 @@ Definition field_texts (v : cty) : list str :=
   | _ => []
   end.
 
+(** the `?` / `!` mark is trimmed first (it follows the closing quote of a quoted label), then the quotes *)
 Definition clean_field_name (fld : str) : str :=
-  trim_suffix (trim_suffix (strip_quotes fld) (bs "?")) (bs "!").
+  strip_quotes (trim_suffix (trim_suffix fld (bs "?")) (bs "!")).
 
 (** [None] = the error return (Fields on the error value that the underlying
     value of `[]` is). *)
